@@ -199,6 +199,19 @@ CLAIMED["C11"] = {
     "ref": "DESIGN.md section 5 (C11)",
 }
 
+CLAIMED["C19"] = {
+    "text": "Proof, with every figure symbolic: the front-end sensors_temperatures (Fahrenheit = C*9/5+32, None preserved, "
+            "missing high/critical back-filled), cpu_freq (mean over 0..3 CPUs, None for zero, min/max None case), "
+            "cpu_count (<1 -> None), _pslinux.sensors_battery for 35 file-layout configurations (percent = now/full*100, "
+            "capacity fallback, AC adapter vs status, seconds left = int(now/power*3600), UNLIMITED/UNKNOWN, None "
+            "without battery), _pslinux.sensors_temperatures for flat / nested / mixed / unreadable / thermal-zone / "
+            "empty hardware trees (millidegrees scaled exactly once, unreadable sensors skipped) and boot_time (loop "
+            "invariant over /proc/stat).",
+    "note": "hardware-tree layouts are a fixed family (the glob plumbing is concrete per layout, all values symbolic); "
+            "sensors_fans, cpu_stats, cpu_count_cores/logical parsers are not under contract yet.",
+    "ref": "DESIGN.md section 5 (C19)",
+}
+
 NOT_YET = "check not built yet (work in progress, see DESIGN.md section 7)"
 NA = {}
 
